@@ -10,25 +10,29 @@ open ClockBound
     published record is `spec` of the first k+1 outcomes. -/
 theorem refinement (drift : Nat) (msgs : List Msg) (hok : ∀ m ∈ msgs, m.ok = true) :
     Updater.run (Updater.new drift) msgs = specs drift (msgs.map abstractMsg) := by
-  sorry
+  exact specs_eq_run drift msgs hok
 
 /-- every outcome results in a publication -/
 theorem one_publication_per_outcome (drift : Nat) (msgs : List Msg) (hok : ∀ m ∈ msgs, m.ok = true) :
     (Updater.run (Updater.new drift) msgs).length = msgs.length := by
-  sorry
+  rw [refinement drift msgs hok]
+  simp [specs]
 
 /-- (c) every published record carries the configured drift rate -/
 theorem drift_published (drift : Nat) (msgs : List Msg) :
     ∀ r ∈ Updater.run (Updater.new drift) msgs, r.drift = drift := by
-  sorry
+  intro r hr
+  exact (Updater.run_drift_void (Updater.new drift) msgs r hr).1
 
 /-- (b) void-after is 1000 s after as-of, rounded down to a whole second -/
 theorem void_after (drift : Nat) (msgs : List Msg) :
     ∀ r ∈ Updater.run (Updater.new drift) msgs, r.voidAfter = ⟨r.asOf.sec + 1000, 0⟩ := by
-  sorry
+  intro r hr
+  exact (Updater.run_drift_void (Updater.new drift) msgs r hr).2
 
 theorem model_holds (drift : Nat) (msgs : List Msg) (hok : ∀ m ∈ msgs, m.ok = true) :
     Holds drift (msgs.map abstractMsg) (Updater.run (Updater.new drift) msgs) = true := by
-  sorry
+  rw [refinement drift msgs hok]
+  exact holds_specs drift _
 
 end ClockBound.C08
